@@ -2,8 +2,9 @@ import Juniper.Proofs.TreeIterProps
 /-!
 # C02 — tree iterators stay correct while the tree is modified between Next calls (property theorems)
 
-The model iterator (cursor = node identity, index, remembered key, generation; `lost()` and the re-seek
-regenerated from `btree.go`) is shown to refine the *resume-key iterator* of the specification for every
+The model iterator (cursor = node identity, index, remembered key, generation; `lost()`, the re-seek, the sticky
+cut-off `done` and the in-range test — on the key, before the value is read — regenerated from `btree.go`; the
+equivalence with the former `iterator.While` wrapping is `Proofs/TreeWhile.iterNext_eq_while`) is shown to refine the *resume-key iterator* of the specification for every
 interleaving of `Put`/`Delete` with `Next` calls of any number of live forward and reverse iterators
 (`iter_refines_resume`); the property's clauses are then theorems about the specification iterator.
 Helper lemmas are in `Juniper/Proofs/Tree*.lean`.
